@@ -36,9 +36,10 @@ def gen(rng, tier):
             pairs.append(("grid64", G.grid_bop(rng, 64), G.grid_bop(rng, 64)))
         for _ in range(400 if tier == "quick" else 20000):
             x, y = G.float_bop(rng, ty), G.float_bop(rng, ty)
-            if rng.chance(1, 3):
-                # base rates close to 1 (mul) / 0 (comul): the divisors nearly vanish
-                e = num.rnd(ty, 10.0 ** -(1 + rng.below(7)))
+            if rng.chance(1, 2):
+                # base rates close to 1 (mul) / 0 (comul): the divisors nearly vanish, down to the machine epsilon scale
+                e = num.rnd(ty, 10.0 ** -(1 + rng.below(7))) if rng.chance(1, 2) else \
+                    num.rnd(ty, 2.0 ** -(rng.choice([20, 22, 23, 24, 25, 30]) if ty == "f32" else rng.choice([40, 50, 51, 52, 53, 54, 60])))
                 x[3], y[3] = (num.rnd(ty, 1.0 - e), num.rnd(ty, 1.0 - e * rng.unit())) if rng.chance(1, 2) else (e, num.rnd(ty, e * rng.unit()))
             pairs.append(("float", x, y))
         for tag, x, y in pairs:
@@ -50,6 +51,10 @@ def gen(rng, tier):
         for _ in range(300 if tier == "quick" else 10000):
             den = rng.choice([8, 64])
             x, y, z = G.grid_bop(rng, den), G.grid_bop(rng, den), G.grid_bop(rng, den)
+            if rng.chance(1, 4):
+                k = (rng.choice([22, 23, 24, 25]) if ty == "f32" else rng.choice([51, 52, 53, 54]))
+                for w in (x, y, z):
+                    w[3] = 2.0 ** -(k + rng.below(2)) if rng.chance(1, 2) else 1.0 - 2.0 ** -(k - 30 if ty == "f64" else k - 12)
             if all(0 < w[3] < 1 for w in (x, y, z)):
                 out.append(Case("bassoc_mul", ty, "bi", "-", [], x + y + z, mop="-", tag="assoc"))
                 out.append(Case("bassoc_comul", ty, "bi", "-", [], x + y + z, mop="-", tag="assoc"))
@@ -80,7 +85,7 @@ def predicates(c, ri, rm):
     else:
         wa, wp = ax + ay - ax * ay, px + py - px * py
         scale = max(1, 1 / (ax + ay - ax * ay))
-    t = tol * min(scale, 1 << 20)
+    t = tol
     if min(b, d, u) < -t or abs(b + d + u - 1) > t:
         out.append("%s result is not well-formed: %r" % (c.op, vals))
     if abs(a - wa) > tol:
@@ -91,8 +96,5 @@ def predicates(c, ri, rm):
 
 
 def scale(c, rm):
-    if c.mop == "-":
-        return 1
-    ax, ay = Fraction(c.nums[3]), Fraction(c.nums[7])
-    den = (1 - ax * ay) if c.op == "bmul" else (ax + ay - ax * ay)
-    return min(max(1, 1 / den), 1 << 20) if den != 0 else 1
+    # both operators are evaluated with cancellation-free divisors: no conditioning allowance
+    return 1
